@@ -1,5 +1,5 @@
 //! stdout (line oriented):
-//!   tokens <n> tiling=<ok|BROKEN at i> end=<end> len=<len>
+//!   tokens <n> tiling=<ok|BROKEN at i> end=<end> len=<len> gaps_ok=<bool> errs_in_text=<bool> slices=<ok|BROKEN_...>
 //!   memo   tree=<hash> errs=<n> reads=<r> hits=<h> leaves=<l> leaves_ok=<bool> spans_ok=<bool>
 //!   nomemo tree=<hash> errs=<n> reads=<r> hits=<h>
 //!   same=<bool>
@@ -7,7 +7,8 @@ use oal_compiler::tree::Core;
 use oal_model::grammar::{AbstractSyntaxNode, Context, ParserMatch};
 use oal_model::lexicon::{Lexeme, TokenList};
 use oal_model::locator::Locator;
-use oal_syntax::lexer::{tokenize, Token};
+use oal_model::lexicon::Interner;
+use oal_syntax::lexer::{tokenize, Token, TokenValue};
 use oal_syntax::parser::{parse_program, Gram};
 use std::collections::hash_map::DefaultHasher;
 use std::hash::{Hash, Hasher};
@@ -88,13 +89,28 @@ fn main() {
     let mut input = String::new();
     std::io::stdin().read_to_string(&mut input).unwrap();
     let loc = Locator::try_from("file:///mem/main.oal").unwrap();
-    let (tokens, _errs) = tokenize(loc.clone(), &input);
+    let (tokens, lex_errs) = tokenize(loc.clone(), &input);
     let list = tokens.unwrap();
     // tiling: token spans ascend without overlap; gaps only where the lexer reported an error
     let mut pos = 0usize;
     let mut tiling = String::from("ok");
     let mut n = 0usize;
     let mut cur = list.head();
+    // bytes covered by lexical-error spans
+    let mut err_cover = vec![false; input.len() + 1];
+    let mut errs_in_text = true;
+    for e in lex_errs.iter() {
+        let sp = e.span();
+        if sp.start() > sp.end() || sp.end() > input.len() || !input.is_char_boundary(sp.start()) || !input.is_char_boundary(sp.end()) {
+            errs_in_text = false;
+            continue;
+        }
+        for b in sp.start()..sp.end() {
+            err_cover[b] = true;
+        }
+    }
+    let mut gaps_ok = true;
+    let mut slices = String::from("ok");
     while cur.is_valid() {
         let (tok, span) = list.token_span(cur);
         let _ = tok.kind();
@@ -102,11 +118,42 @@ fn main() {
             tiling = format!("BROKEN at token {n} ({}..{})", span.start(), span.end());
             break;
         }
+        // a gap before this token must be bytes the lexer reported as an error
+        if (pos..span.start()).any(|b| !err_cover[b]) {
+            gaps_ok = false;
+        }
+        // the token's text is the source slice of its span: lexing that slice alone gives this very token
+        if slices == "ok" {
+            if !input.is_char_boundary(span.start()) || !input.is_char_boundary(span.end()) {
+                slices = format!("BROKEN at token {n}: span {}..{} is off a character boundary", span.start(), span.end());
+            } else {
+                let piece = &input[span.start()..span.end()];
+                let (l2, e2) = tokenize(loc.clone(), piece);
+                let l2 = l2.unwrap();
+                let h2 = l2.head();
+                let same = e2.is_empty() && l2.len() == 1 && {
+                    let (t2, s2) = l2.token_span(h2);
+                    s2.start() == 0 && s2.end() == piece.len() && t2.kind() == tok.kind() && match (tok.value(), t2.value()) {
+                        (TokenValue::Symbol(a), TokenValue::Symbol(b)) => list.resolve(*a) == l2.resolve(*b),
+                        (TokenValue::None, TokenValue::None) => true,
+                        (TokenValue::Number(a), TokenValue::Number(b)) => a == b,
+                        (TokenValue::HttpStatus(a), TokenValue::HttpStatus(b)) => a == b,
+                        _ => false,
+                    }
+                };
+                if !same {
+                    slices = format!("BROKEN at token {n}: {:?} at {}..{} is not what its slice {:?} denotes", tok.kind(), span.start(), span.end(), piece.chars().take(12).collect::<String>());
+                }
+            }
+        }
         pos = span.end();
         n += 1;
         cur = list.advance(cur);
     }
-    println!("tokens {n} tiling={tiling} end={} len={}", list.end(), input.len());
+    if tiling == "ok" && (pos..input.len()).any(|b| !err_cover[b]) {
+        gaps_ok = false;
+    }
+    println!("tokens {n} tiling={tiling} end={} len={} gaps_ok={gaps_ok} errs_in_text={errs_in_text} slices={}", list.end(), input.len(), slices.replace(' ', "_"));
     let a = run(&loc, &input, true);
     if std::env::var("PARSEDRV_MEMO_ONLY").is_ok() {
         println!("memo   tree={:x} errs={} reads={} hits={} leaves={} leaves_ok={} spans_ok={}", a.0, a.1, a.2, a.3, a.4, a.5, a.6);
